@@ -17,13 +17,18 @@ def model(elfi, kind):
         t1 = elfi.Prior('normal', 0, 1.5, model=m, name='t1')
         t2 = elfi.Prior('normal', 1, 1.0, model=m, name='t2')
         params = ['t1', 't2']
+    elif kind == 'tiny1':     # a parameter on a small numerical scale (population variance far below 1e-6)
+        t1 = elfi.Prior('uniform', 0, 1e-3, model=m, name='t1')
+        params = ['t1']
     else:       # hierarchical, bounded second level
         t1 = elfi.Prior('uniform', 0, 2, model=m, name='t1')
         t2 = elfi.Prior('uniform', 0, t1, model=m, name='t2')
         params = ['t1', 't2']
 
+    scale = 1e3 if kind == 'tiny1' else 1.0
+
     def sim(*th, batch_size=1, random_state=None):
-        mu = sum(th)
+        mu = sum(th) * scale
         return mu + 0.5 * random_state.randn(batch_size)
     y = elfi.Simulator(sim, *[m[p] for p in params], model=m, name='y', observed=np.array([0.7]))
     s = elfi.Summary(lambda y: y, y, model=m, name='s')
@@ -35,6 +40,8 @@ def prior_pdf(kind, th):
     th = np.atleast_2d(th)
     if kind == 'uniform1':
         return ss.uniform(-2, 4).pdf(th[:, 0])
+    if kind == 'tiny1':
+        return ss.uniform(0, 1e-3).pdf(th[:, 0])
     if kind == 'normal2':
         return ss.norm(0, 1.5).pdf(th[:, 0]) * ss.norm(1, 1.0).pdf(th[:, 1])
     with np.errstate(all='ignore'):
@@ -134,7 +141,7 @@ def run(tier='quick', seed=0):
     elfi = native.import_elfi()
     cases = nontriv = 0
     fails = []
-    grid = [('uniform1', 20, 50, 'thresholds', False), ('normal2', 20, 40, 'quantiles', False), ('hier2', 15, 40, 'quantiles', False), ('uniform1', 15, 30, 'quantiles', True)]
+    grid = [('tiny1', 15, 40, 'quantiles', False), ('uniform1', 20, 50, 'thresholds', False), ('normal2', 20, 40, 'quantiles', False), ('hier2', 15, 40, 'quantiles', False), ('uniform1', 15, 30, 'quantiles', True)]
     if tier != 'quick':
         grid += [('normal2', 30, 50, 'thresholds', True), ('hier2', 20, 30, 'thresholds', False), ('uniform1', 10, 7, 'quantiles', False), ('normal2', 12, 25, 'quantiles', True)]
     for kind, n, b, mode, cont in grid:
